@@ -105,7 +105,7 @@ static void conc_case(int warm, unsigned dimsel, int T, int rounds, unsigned rep
     cnt("ro_protected_allocations", ro_regions());
   }
   // the operations of this phase
-  int ops[256], nops = 0;
+  int ops[512], nops = 0;
   for (int i = 0; i < N_CAT_OPS; i++) {
     const int simple = (OPS[i].flags & OPF_SIMPLE) != 0;
     if (simple == warm) ops[nops++] = i;
@@ -136,7 +136,7 @@ static void conc_case(int warm, unsigned dimsel, int T, int rounds, unsigned rep
     int k = 0;
     for (int rd = 0; rd < rounds; rd++) {
       // random permutation of all entry points of the phase
-      int perm[256];
+      int perm[512];
       for (int i = 0; i < nops; i++) perm[i] = ops[i];
       for (int i = nops - 1; i > 0; i--) {
         int j = (int)(rng_u64(r) % (uint64_t)(i + 1));
@@ -184,7 +184,7 @@ static void conc_case(int warm, unsigned dimsel, int T, int rounds, unsigned rep
   // observed concurrency: overlapping [call,return] intervals between different threads
   uint64_t overlaps = 0;
   int first_overlap = 0;
-  static uint8_t op_overlapped[256];
+  static uint8_t op_overlapped[512];
   memset(op_overlapped, 0, sizeof op_overlapped);
   for (int a = 0; a < T; a++)
     for (int b = a + 1; b < T; b++) {
@@ -572,6 +572,18 @@ void run_C12(void) {
   // cold cases first: the first case a fresh process runs is its cold start
   for (unsigned rep = 0; rep < n; rep++)
     for (size_t ti = 0; ti < ARRAY_LEN(TS); ti++) conc_case(0, rep + (unsigned)ti, TS[ti], 1 + (int)(rep & 1), rep);
+  // the *_simple API with constant arguments per thread, at a dimension no earlier case of the process has used: the documented
+  // warm-up calls are made by a thread that exits before the workers start (nothing says the warm-up thread must stay alive)
+  {
+    int simple[64], ns = 0;
+    for (int i = 0; i < N_CAT_OPS && ns < 64; i++)
+      if (OPS[i].flags & OPF_SIMPLE) simple[ns++] = i;
+    for (int i = 0; i < ns; i++)
+      for (unsigned rep = 0; rep < (th ? 4u : 1u); rep++) {
+        const char* names[3] = {OPS[simple[i]].name, OPS[simple[i]].name, OPS[simple[(i + 1 + (int)rep) % ns]].name};
+        ops_steady_case(OPS[simple[i]].name, names, 3, rep & 1 ? 512 : 128, DISP_NATIVE, 70, 300, 0, 1, rep, "steady_concurrent_calls");
+      }
+  }
   for (unsigned rep = 0; rep < n; rep++)
     for (size_t ti = 0; ti < ARRAY_LEN(TS); ti++) conc_case(1, rep + (unsigned)ti, TS[ti], 3, rep);
   for (unsigned rep = 0; rep < (th ? 24u : 4u); rep++) allocation_case(rep & 1 ? 4096 : 256, rep & 2 ? 8 : 4, rep);
@@ -602,6 +614,18 @@ void run_C12(void) {
   for (unsigned rep = 0; rep < (th ? 6u : 1u); rep++) conc_case(1, 0, rep & 1 ? 4 : 2, 2, 1000 + rep);
   force_dims[0] = force_dims[1] = 0;
   for (unsigned rep = 0; rep < (th ? 60u : 6u); rep++) construction_case(rep & 1 ? 16 : 4, rep);
+  // every entry point with constant arguments per thread (hot-parameter caches, memoised last arguments): twice the same entry
+  // with two argument sets, and the same plus the next entry of the catalogue (usually a sibling sharing code with it)
+  for (int oi = 0; oi < N_CAT_OPS; oi++) {
+    if (OPS[oi].flags & OPF_SIMPLE) continue;
+    for (unsigned rep = 0; rep < (th ? 6u : 2u); rep++) {
+      int nx = (oi + 1) % N_CAT_OPS;
+      while (OPS[nx].flags & OPF_SIMPLE) nx = (nx + 1) % N_CAT_OPS;
+      const char* names[3] = {OPS[oi].name, OPS[oi].name, OPS[nx].name};
+      const uint64_t N = rep < 2 ? 64 : (rep & 1 ? 1024 : 16);
+      ops_steady_case(OPS[oi].name, names, 2 + (int)(rep & 1), N, DISP_NATIVE, 100, 400, 0, (int)((rep >> 1) & 1), rep, "steady_concurrent_calls");
+    }
+  }
   for (unsigned rep = 0; rep < (th ? 26u : 2u); rep++)
     for (size_t ni = 0; ni < N_ALL_N; ni++) first_use_case(ALL_N[ni], rep & 1 ? 8 : 4, (rep % 3) == 2 || (!th && rep == 1 && (ni & 1)) ? DISP_GENERIC : DISP_NATIVE, rep);
 }
